@@ -82,7 +82,7 @@ fn check(ctx: &Ctx, c: &Case, label: &str, counting: bool) -> Result<(), Fail> {
 	}
 	// the `debug` option (dumps event payloads into a directory) must change neither: no hash unless
 	// requested, the exact digest if requested
-	if bytes.len() <= 4096 && rt::hash_bytes(&bytes) % 16 == 9 {
+	if bytes.len() <= 4096 && rt::hash_bytes(&bytes) % 16 == 9 && rt::debug_budget_take() {
 		let h = rt::with_debug_dir(|dir| {
 			let o = peppi::io::slippi::de::Opts { skip_frames: c.skip, compute_hash: c.hash, debug: Some(peppi::io::slippi::de::Debug { dir: dir.to_path_buf() }) };
 			let mut r = SchedReader::new(&bytes, c.sched.clone());
